@@ -8,7 +8,10 @@ RULE = ("resolve-level plans generated without the planner (loaderlab: response 
         "SingleFetch per subgraph, Entity/BatchEntity fetches at nested object/list positions with key and @requires-like "
         "representations, Sequence/Parallel trees by dependency level), each run fault-free and under fault sets keyed by fetch: "
         "every single (fetch, kind) for 16 kinds, plus random subsets (quick: 30 per plan; thorough: the power set of the requested "
-        "fetches when <= 6, else 2000). An evaluation is one (plan, fault set) run through resolve.Resolver; it is distinct by "
+        "fetches when <= 6, else 2000). A second batch (mode chain) uses entity types with @requires chains of length 3-4 and further "
+        "fields requiring a chain member (the provider of z depends on the provider of y, that on the provider of x, z's not on x's; a second "
+        "fetch to one subgraph at one object where needed), inputs nullable in 5 of 6 plans, and in half of the plans extra root Single "
+        "fetches with DependsOnFetchIDs on an entity / batch fetch. An evaluation is one (plan, fault set) run through resolve.Resolver; it is distinct by "
         "construction and non-trivial when the faults changed the response data relative to the fault-free run.")
 
 KEYS = ["status-ignored-with-data"]   # nan-accepted, entity-count-ignored, nullable-requires-null-sent: repaired in loader.go
@@ -117,6 +120,33 @@ def run(chk, extra_corpus=None):
             "plans_satisfying_both_theorem_hypotheses": totals.get("wf_cons", 0),
         }
 
+    # @requires chains / DAGs and dependent Single fetches (mode chain): a dependant of a SKIPPED fetch that does not depend on
+    # the failed fetch itself, mostly with nullable inputs (the representation still renders)
+    nc = 60 if chk.tier == "quick" else 150
+    b = _batch(chk, "%s gen -seed %d -n %d -tier %s -mode chain -out {out}" % (exe, chk.seed, nc, chk.tier), model, "chain", timeout=3000)
+    if b:
+        _fold(chk, state, b, totals)
+        samples += [c[:600] for c in b[0][:1]]
+        st = {"plans": len(b[0]), "plans_with_indirect_only_dependant": 0, "indirect_only_dependants_by_kind": {},
+              "plans_with_indirect_only_dependant_and_parallel": 0, "plans_with_nullable_inputs": sum(1 for c in b[0] if re.search(r"\(meta \d+ \d+ \d+ t t", c))}
+        for c in b[0]:
+            fs = {int(i): (k, [int(x) for x in d.split()]) for (i, k, d) in
+                  re.findall(r'\(fetch (\d+) (single|entity|batch) "s\d+" \(path.*?\) \(deps([ \d]*)\)', c)}
+            hit = False
+            for f, (k, deps) in fs.items():
+                # f depends on d, d on a non-root fetch e, f not on e: when e fails, f is skipped only because d was recorded
+                if any(e not in deps and fs[e][1] for d in deps for e in fs[d][1]):
+                    hit = True
+                    st["indirect_only_dependants_by_kind"][k] = st["indirect_only_dependants_by_kind"].get(k, 0) + 1
+            if hit:
+                st["plans_with_indirect_only_dependant"] += 1
+                if "(par " in c[c.rindex("(tree"):]:
+                    st["plans_with_indirect_only_dependant_and_parallel"] += 1
+        if isinstance(chk.coverage.get("distribution"), dict):
+            chk.coverage["distribution"]["chain_mode"] = st
+            chk.coverage["distribution"]["runs"] = totals["runs"]
+            chk.coverage["distribution"]["runs_changing_data"] = totals["nt"]
+
     def more(st):
         for k in range(1, 4):
             bb = _batch(chk, "%s gen -seed %d -n %d -tier %s -out {out}" % (exe, chk.seed * 1000 + k, n * 2, chk.tier), model, "more%d" % k, timeout=3000)
@@ -159,12 +189,12 @@ def replay(chk, path):
             f.write(case["corpus_line"] + "\n")
         run(chk, extra_corpus=p)
         return
-    m = re.search(r"\(meta (\d+) (\d+) ", str(case))
+    m = re.search(r"\(meta (\d+) (\d+) \d+ [tf] [tf] [tf]( \w+)?\)", str(case))
     d = re.search(r"faults=\[([^\]]*)\]", r.get("detail", ""))
     if m:
         p = os.path.join(chk.work, "replay.tsv")
         with open(p, "w") as f:
-            f.write("%s\t%s\tmixed\t%s\n" % (m.group(1), m.group(2), d.group(1) if d else ""))
+            f.write("%s\t%s\t%s\t%s\n" % (m.group(1), m.group(2), (m.group(3) or "mixed").strip(), d.group(1) if d else ""))
         run(chk, extra_corpus=p)
     else:
         run(chk)
